@@ -10,7 +10,7 @@ from symx import term as tm, oracle
 from symx.sym import Ctx, use_ctx, sym, SymReal
 from symx.jet import Jet, jetarray
 from symx.npproxy import patched
-from symx.harness import Ob, FuncTrace, JetRun, source_digest
+from symx.harness import Ob, FuncTrace, JetRun, source_digest, eval_terms, float_field as _float_field
 from . import gr
 from .common import process_jet, vacuity, witness_sat, load_calib, save_calib
 
@@ -180,6 +180,7 @@ def build(tier):
                 for comp in itertools.product(range(3), repeat=len(idx) + 1):
                     obs.append(Ob(f"s_covd('{idx}')[{','.join(map(str, comp))}]",
                                   T0(got[comp + (0, 0, 0)]), T0(want[comp]), S.pre,
+                                  get=lambda r, fg=gr.grid(f), idx=idx, comp=comp: r.s_covd(_float_field(r, fg), idx)[comp],
                                   group=f"s_covd('{idx}')"))
             # metric compatibility and commutation with raising/lowering
             cg = rel.s_covd(rel['gammadown3'], 'dd')
@@ -214,7 +215,8 @@ def build(tier):
                         want = sum(T0(cv[a, b, a]) for a in range(3))
                     else:
                         want = sum(gi0[a, e] * T0(cv[a, e, b]) for a in range(3) for e in range(3))
-                    obs.append(Ob(f"s_div('{idx}')[{b}]", T0(got[b, 0, 0, 0]), want, S.pre, group='s_div'))
+                    obs.append(Ob(f"s_div('{idx}')[{b}]", T0(got[b, 0, 0, 0]), want, S.pre, group='s_div',
+                                  get=lambda r, fg=gr.grid(S.t), idx=idx, b=b: r.s_div(_float_field(r, fg), idx)[b]))
             # --- Lie derivative along the shift ------------------------------------------------
             for wname, w in (('w', S.weight), ('0', 0)):
                 for idx, f in fields.items():
@@ -228,6 +230,8 @@ def build(tier):
                     for comp in itertools.product(range(3), repeat=len(idx)):
                         obs.append(Ob(f"Lie_beta('{code_idx}',weight={wname})[{comp}]",
                                       T0(got[comp + (0, 0, 0)]), T0(want[comp]), S.pre,
+                                      get=lambda r, fg=gr.grid(f), ci=code_idx, w=w, comp=comp: r.Lie_beta(
+                                          _float_field(r, fg), ci, weight=(float(eval_terms([w.t], r._symx['model'])[0]) if isinstance(w, SymReal) else w))[comp],
                                       group=f"Lie_beta weight={wname}"))
             # spacetime vectors: beta^t = 0
             b, dtb, V = S.beta, S.dtbeta, S.v4
@@ -241,9 +245,30 @@ def build(tier):
                 wantd.append(sum(b[k] * D(V[i + 1], k) + V[k + 1] * D(b[k], i) for k in range(3)))
             for m in range(4):
                 obs.append(Ob(f"Lie_beta('st_u')[{m}]", T0(gotu[m, 0, 0, 0]), T0(wantu[m]), S.pre,
-                              group='Lie_beta st_u/st_d'))
+                              get=lambda r, m=m, Vg=gr.grid(V): r.Lie_beta(_float_field(r, Vg), 'st_u')[m], group='Lie_beta st_u/st_d'))
                 obs.append(Ob(f"Lie_beta('st_d')[{m}]", T0(gotd[m, 0, 0, 0]), T0(wantd[m]), S.pre,
-                              group='Lie_beta st_u/st_d'))
+                              get=lambda r, m=m, Vg=gr.grid(V): r.Lie_beta(_float_field(r, Vg), 'st_d')[m], group='Lie_beta st_u/st_d'))
+            # the same with the shift and its time derivative supplied through components, the x component of d_t beta left
+            # to its default (zero): every way of supplying d_t beta must reach the Lie derivative
+            comp_inputs = dict(gammadown3=gr.grid(S.gam), alpha=gr.grid(S.alpha), betax=gr.grid(b[0]), betay=gr.grid(b[1]),
+                               betaz=gr.grid(b[2]), dtbetay=gr.grid(dtb[1]), dtbetaz=gr.grid(dtb[2]))
+            runc = JetRun(3, comp_inputs, S.pre)
+            relc = runc.symbolic_rel()
+            gotu = relc.Lie_beta(gr.grid(V), 'st_u')
+            gotd = relc.Lie_beta(gr.grid(V), 'st_d')
+            dtc = [0, dtb[1], dtb[2]]
+            wantu = [sum(b[k] * D(V[0], k) for k in range(3))]
+            wantd = [sum(b[k] * D(V[0], k) for k in range(3)) + sum(V[k + 1] * dtc[k] for k in range(3))]
+            for i in range(3):
+                wantu.append(sum(b[k] * D(V[i + 1], k) - V[k + 1] * D(b[i], k) for k in range(3)) - V[0] * dtc[i])
+                wantd.append(sum(b[k] * D(V[i + 1], k) + V[k + 1] * D(b[k], i) for k in range(3)))
+            for m in range(4):
+                obs.append(Ob(f"Lie_beta('st_u')[{m}] (d_t beta through dtbetay, dtbetaz only)", T0(gotu[m, 0, 0, 0]), T0(wantu[m]), S.pre,
+                              get=lambda r, m=m, Vg=gr.grid(V): r.Lie_beta(_float_field(r, Vg), 'st_u')[m], meta=dict(run=runc, fresh_rel=True),
+                              group='Lie_beta st_u/st_d, component inputs'))
+                obs.append(Ob(f"Lie_beta('st_d')[{m}] (d_t beta through dtbetay, dtbetaz only)", T0(gotd[m, 0, 0, 0]), T0(wantd[m]), S.pre,
+                              get=lambda r, m=m, Vg=gr.grid(V): r.Lie_beta(_float_field(r, Vg), 'st_d')[m], meta=dict(run=runc, fresh_rel=True),
+                              group='Lie_beta st_u/st_d, component inputs'))
             # --- curl -------------------------------------------------------------------------------
             ts = oracle.arr((3, 3))
             for i in range(3):
@@ -260,7 +285,8 @@ def build(tier):
             for a in range(3):
                 for bb in range(3):
                     obs.append(Ob(f"s_curl[{a},{bb}]", T0(got[a, bb, 0, 0, 0]),
-                                  T0((raw[a, bb] + raw[bb, a]) * 0.5), S.pre, group='s_curl'))
+                                  T0((raw[a, bb] + raw[bb, a]) * 0.5), S.pre, group='s_curl',
+                                  get=lambda r, tg=gr.grid(ts), a=a, bb=bb: r.s_curl(_float_field(r, tg), 'dd')[a, bb]))
         blocks.append(dict(name='spatial', setup=S, run=S.run, obs=obs, ctx=c))
 
         # ---- BSSNOK split (root atom psi = det^(1/12): designed slices) ---------------------
